@@ -15,6 +15,7 @@ type Port struct {
 	WF      map[int]bool
 	RF      map[int]bool
 	FF      map[int]bool
+	WS      map[int]bool // Write calls that accept only half of the bytes handed to them (n < len(b), nil error)
 	NW      int
 	NR      int
 	NF      int
@@ -60,6 +61,9 @@ func (p *Port) Write(b []byte) (int, error) {
 				p.Queue = append(p.Queue, append([]byte(nil), c...))
 			}
 		}
+	}
+	if p.WS[k] {
+		return len(b) / 2, nil
 	}
 	return len(b), nil
 }
